@@ -163,13 +163,17 @@ def degree_input(ctx, name, n):
     return ST.SymStr(v, n)
 
 
-def job_template(prefix, star, n1, n2):
-    """grammar-derived labels deeper than the free-string bound: <prefix>( [*]<degree of n1 chars> )/<bass degree of n2 chars>"""
+def job_template(prefix, star, n1, n2, first=None):
+    """grammar-derived labels deeper than the free-string bound: <prefix>( [*]<degree of n1 chars> )/<bass degree of n2 chars>;
+    `first`: the degree's first character is drawn from this set (the sets used together cover every degree; splitting only
+    spreads the work over more workers)"""
     def build(ctx):
         d1 = degree_input(ctx, 'deg', n1)
         d2 = degree_input(ctx, 'bass', n2)
+        if first is not None:
+            ctx.add(z3.Or([z3.SubString(d1.e, 0, 1) == z3.StringVal(c) for c in first]))
         return dict(s=prefix + "(" + ("*" if star else "") + d1 + ")/" + d2)
-    j = job_strings(None, build=build, name='template[%s(%s<deg:%d>)/<bass:%d>]' % (prefix, '*' if star else '', n1, n2))
+    j = job_strings(None, build=build, name='template[%s(%s<deg:%d>)/<bass:%d>%s]' % (prefix, '*' if star else '', n1, n2, '' if first is None else ',first char in %r' % first))
     return j
 
 
@@ -292,5 +296,10 @@ def jobs(tier):
            [(p, st, a, b) for p in ('C:maj', 'G#:', 'A:min7', 'Eb:sus4', 'D:1', 'F:9', 'B:hdim7') for st in (True, False) for (a, b) in ((1, 1), (2, 1), (1, 2), (2, 2))] + \
            [('C:maj', False, 3, 1), ('D:min', True, 1, 3), ('A:min7', True, 3, 2), ('G#:', False, 2, 3), ('F:9', False, 3, 3)]
     for t in tmpl:
-        js.append(job_template(*t))
+        if t[2] >= 3:
+            # three-character degrees start with an accidental: one job per accidental
+            js.append(job_template(*t, first='b'))
+            js.append(job_template(*t, first='#'))
+        else:
+            js.append(job_template(*t))
     return js
